@@ -8,6 +8,7 @@ From Coq Require Import List String ZArith NArith Bool Lia.
 Import ListNotations.
 From DV Require Import Model.Tree Model.Tables Model.Skeleton Model.FragSkel Model.Link Model.Restore
      Proofs.LinkProofs Proofs.LinkPanic Proofs.LinkChunk Proofs.RestoreProofs Proofs.RelocProofs
+     Model.Fragment Model.Decorate Proofs.FragReach Proofs.DecReach Proofs.Pipeline Proofs.RestReach Proofs.EndToEnd Gen.DecTbl
      Gen.Universe Gen.DataTbl Gen.FragTbl Gen.RestTbl Gen.RestoreSrc.
 Local Open Scope string_scope.
 Local Open Scope list_scope.
@@ -73,6 +74,28 @@ Proof.
   intros s sp Hne. cbn zeta. destruct (sibling_spacing s sp sp Hne) as [_ H]. cbn zeta in H. rewrite H. apply Z.max_id.
 Qed.
 
+(* Through the whole pipeline on the regenerated tables: for every go/ast tree and every node of it
+   the fragment emitter reaches, the Before / After spacing link recorded for that node is the
+   spacing the restorer applies at that node (its applySpace actions are part of the file's
+   actions) -- for every attachment state.  With C01_separator_becomes_spacing and
+   C01_spacing_renders_the_same_breaks this carries one line break or blank line between two nodes
+   from the source to the restored file. *)
+Theorem C01_link_spacing_is_applied :
+  forall (att : lstate) t t',
+  (forall f, FragReach.desc t f -> tkind f = "File" -> imports_aliased f) ->
+  reach (frag_paths frag_tbl) t t' -> tkind t' <> "Package" ->
+  (exists stmts, lookup dec_tbl (tkind t') = Some stmts) ->
+  let acts := flatten rest_tbl false (fun _ => None) (decorateD dec_universe dec_tbl att t) in
+  In (ASpace (is_bad_kind (tkind t')) false (space_of (l_before att) (tid t'))) acts /\
+  In (ASpace (is_bad_kind (tkind t')) true (space_of (l_after att) (tid t'))) acts.
+Proof.
+  intros att t t'.
+  assert (H : frag_dec_coherent frag_tbl dec_tbl dec_universe && tbl_wf dec_tbl && dec_rest_coherent dec_tbl rest_tbl
+              && spacing_coherent dec_tbl rest_tbl = true) by (vm_compute; reflexivity).
+  apply andb_true_iff in H. destruct H as [H C4]. apply andb_true_iff in H. destruct H as [H C3]. apply andb_true_iff in H. destruct H as [C1 C2].
+  apply (pipeline_applies_link_spacing frag_tbl dec_tbl rest_tbl dec_universe att t t' C1 C2 C3 C4).
+Qed.
+
 (* A comment on the same line after a node goes to that node's End point; comment lines directly
    before a node go to its Start point, in order (C02 states both in full). *)
 Theorem C01_trailing_comment_goes_to_end :
@@ -110,5 +133,6 @@ Print Assumptions C01_entry_points_differ_only_in_base.
 Print Assumptions C01_every_comment_kept.
 Print Assumptions C01_separator_becomes_spacing.
 Print Assumptions C01_spacing_renders_the_same_breaks.
+Print Assumptions C01_link_spacing_is_applied.
 Print Assumptions C01_trailing_comment_goes_to_end.
 Print Assumptions C01_restorer_starts_from_init_state.
